@@ -93,7 +93,7 @@ def gen_ops(tier, rng):
         d = rng.choice([rng.randint(-2, 300), rng.randint(1, 70000)])
         p = rng.choice([rng.randint(-2, 300), rng.randint(0, 70000)])
         ops.append((f"new {d} {p} {rng.choice(flags)}", {"cat": "new-seeded"}))
-    confs = [("default", 4, 2), ("default", 1, 0), ("default", 3, 3), ("leo8", 4, 2), ("leo8", 5, 3), ("leo16", 4, 2), ("default", 1, 1), ("default", 10, 4)]
+    confs = [("default", 4, 2), ("default", 1, 0), ("default", 3, 3), ("leo8", 4, 2), ("leo8", 5, 3), ("leo16", 4, 2), ("default", 1, 1), ("default", 10, 4), ("default", 3, 0), ("default", 2, 0)]
     for (fam, d, p) in confs:
         total = d + p
         shp = shapes_for(rng, d, p, fam)
@@ -125,7 +125,7 @@ def gen_ops(tier, rng):
     # every argument position of a 2+1 (and a Leopard 2+2) encoder, for the calls whose kernels slice their arguments
     import itertools
     alpha = {"default": ["n", "e", "c12", "10", "11"], "leo8": ["n", "e", "c64", "64", "128"]}
-    for (fam, d, p) in [("default", 2, 1), ("leo8", 2, 2)]:
+    for (fam, d, p) in [("default", 2, 1), ("leo8", 2, 2), ("default", 3, 0)]:
         A = alpha[fam]
         for sh in itertools.product(A, repeat=d + p):
             shs = ",".join(sh)
@@ -140,7 +140,7 @@ def gen_ops(tier, rng):
             for psh in itertools.product(A, repeat=p):
                 for dl in ["n", "0", "10", "11"]:          # the data argument is given as a length (0 = empty, non-nil)
                     for idx in range(-1, d + 1):
-                        ops.append((f"api {fam} {d} {p} idx {dl} {idx} {','.join(psh)}", {"cat": "grid-idx"}))
+                        ops.append((f"api {fam} {d} {p} idx {dl} {idx} {','.join(psh) or '-'}", {"cat": "grid-idx"}))
     # stream Join: a nil reader at every index of the full d+p reader list (parity positions are not considered)
     for (d, p) in [(2, 1), (3, 2), (4, 2)]:
         for i in range(d + p):
